@@ -253,6 +253,13 @@ func c17(c *rt.Ctx) {
 				}
 			}
 			c.Check("processBlockedQueries re-evaluates every uncancelled query", proc.Pos(), !esc, "an uncancelled pending query is skipped on path "+an.PathString(c.P, path))
+			early := an.LoopEarlyExit(l)
+			epos := proc.Pos()
+			if early != nil {
+				epos = posOf(early.Instrs[0])
+			}
+			c.Check("processBlockedQueries visits every pending query", epos, early == nil,
+				"the loop over the pending queries can be left early (break/return): the remaining queries are not re-evaluated after the write and stay blocked although their key may be stored")
 		}
 		// execQuery: true is returned only after sending the value stored under the query's own key
 		for _, r := range an.Returns(execQ) {
